@@ -20,7 +20,7 @@ INFO = {
     "outside": ["trees / targets outside the corpus", "environment-variable driven options"],
     "stubs": ["memfs for write_docs"],
 }
-BUDGET = {"quick": 200, "thorough": 1100}
+BUDGET = {"quick": 200, "thorough": 800}
 
 
 def _collect(k, vis):
